@@ -21,3 +21,10 @@ void h_page_retire(void) {
   _mi_page_retire(g_fpage); VC_REACH();
 }
 void h_page_abandon(void) { build(); g_spa_n = 0; mi_page_queue_t* pq = &g_fheap->pages[vc_nondet_size("bin") % (MI_BIN_FULL + 1)]; _mi_page_abandon(g_fpage, pq); VC_REACH(); }
+void h_collect_retired(void) {
+  build(); g_rex0 = vc_nondet_u8("g_rex0"); g_allfree = vc_nondet_bool("g_allfree");
+  for (size_t i = 0; i <= MI_BIN_FULL; i++) { g_fheap->pages[i].first = NULL; g_fheap->pages[i].last = NULL; }
+  __CPROVER_assume(g_bin <= MI_BIN_FULL);
+  g_fheap->pages[g_bin].first = g_fpage; g_fheap->pages[g_bin].last = g_fpage;
+  _mi_heap_collect_retired(g_fheap, vc_nondet_bool("force")); VC_REACH();
+}
